@@ -112,6 +112,10 @@ def run(c, p):
     if op in ("rowsum", "rowany", "rowall", "rowmax", "rowargmax"):
         f = {"rowsum": "sum", "rowany": "any", "rowall": "all", "rowmax": "max", "rowargmax": "argmax"}[op]
         return getattr(rl, f)(axis=-1)
+    if op == "rowmean":
+        return rl.mean(axis=-1)
+    if op == "npmean":
+        return np.mean(rl, axis=-1)
     if op == "npsum":
         return np.sum(rl, axis=-1)
     if op == "npmax":
@@ -184,6 +188,16 @@ def reference(c, p):
         return common.ref_ragged([r[slice(c["a"], c["b"], c["s"])] for r in rows[c["ra"]:]], "int64")
     if op in ("rowsum", "npsum"):
         return A([zsum(r) for r in rows], "*")
+    if op in ("rowmean", "npmean"):
+        out = []
+        for r in rows:
+            sm = zsum(r)
+            if _sym(sm):
+                import z3
+                out.append(z3.Function("uf_idiv_f64", z3.IntSort(), z3.IntSort(), z3.BitVecSort(64))(sm, z3.IntVal(len(r))))
+            else:
+                out.append(common.cells(np.array([np.mean(np.array(r, dtype="int64"))]))[0])
+        return A(out, "float64")
     if op == "rowany":
         return A([zany(r) for r in rows], "*")
     if op == "rowall":
@@ -322,7 +336,7 @@ def kf_match(case):
 def conc(case):
     p, c = case["p"], case["c"]
     got = outcome(lambda: run(c, p))
-    return got, reference(c, p), {"dtype_matters": False}
+    return got, reference(c, p), {"dtype_matters": False, "float_eq": True}
 
 
 def jobs(tier, seed):
@@ -337,7 +351,7 @@ def jobs(tier, seed):
             out.append(dict(base, variant=variant, op=op) if op != "concat" else dict(base, variant=variant, op=op, L=2))
         for s in (None, -1, 2):
             out.append(dict(base, variant=variant, op="rowslice", s=s))
-    for op in ("colint", "rowmax", "rowargmax", "npsum", "npmax", "colcounts"):
+    for op in ("colint", "rowmax", "rowargmax", "npsum", "npmax", "colcounts", "rowmean", "npmean"):
         out.append(dict(base, variant="ragged", op=op))
     for s in (None, 1, 2, -1) + (() if q else (3, -2)):
         for pres in ([[0, 0], [1, 0]], [[0, 1]], [[1, 1]]):
